@@ -436,6 +436,15 @@ template <class PropT, class MeshT>
 void FileManager::generateGenericProperty(const std::string& _entity_t, const std::string& _name,
                                           std::istream& _iff, MeshT& _mesh) const {
 
+    if(_name.empty()) {
+        // a persistent property needs a name (set_persistent would throw): malformed property data
+        if (verbosity_level_ >= 1) {
+            std::cerr << "OVM File loading error: property without a name." << std::endl;
+        }
+        _iff.setstate(std::ios::failbit);
+        return;
+    }
+
     if(_entity_t == "vprop") {
         VertexPropertyT<PropT> prop = _mesh.template request_vertex_property<PropT>(_name);
         prop.deserialize(_iff);
